@@ -31,6 +31,7 @@ class NohBlackBoxEos(ExactSolver):
 
         def __init__(self, equation_of_state, initial_conditions = {'density': 1, 'velocity': -1, 'pressure': 0, 'symmetry': 2}, **kwargs): # EoS object (as of now) is designed to be object from the eos_library.py file.
             super(NohBlackBoxEos, self).__init__(**kwargs)
+            initial_conditions = dict(initial_conditions) # own copy: the caller's (or the default) dictionary is shared with other solvers
             self.solver = newton_solver() # one Newton solver per instance, not shared through the class
             self.eos = equation_of_state
             self.symmetry = initial_conditions['symmetry']
@@ -105,21 +106,21 @@ class NohBlackBoxEos(ExactSolver):
 
 class PlanarNohBlackBox(NohBlackBoxEos):
     def __init__(self,equation_of_state, initial_conditions = {'density': 1, 'velocity': -1, 'pressure': 0}):
-        initial_conditions['symmetry'] = 0
+        initial_conditions = dict(initial_conditions, symmetry=0) # do not write into the caller's (or the default) dictionary
         super().__init__(equation_of_state, initial_conditions)
     parameters = NohBlackBoxEos.parameters
     geometry = 1
 
 class CylindricalNohBlackBox(NohBlackBoxEos):
     def __init__(self, equation_of_state, initial_conditions = {'density': 1, 'velocity': -1, 'pressure': 0}):
-        initial_conditions['symmetry'] = 1
+        initial_conditions = dict(initial_conditions, symmetry=1) # do not write into the caller's (or the default) dictionary
         super().__init__(equation_of_state, initial_conditions)
     parameters = NohBlackBoxEos.parameters
     geometry = 2
 
 class SphericalNohBlackBox(NohBlackBoxEos):
     def __init__(self, equation_of_state, initial_conditions = {'density': 1, 'velocity': -1, 'pressure': 0}):
-        initial_conditions['symmetry'] = 2
+        initial_conditions = dict(initial_conditions, symmetry=2) # do not write into the caller's (or the default) dictionary
         super().__init__(equation_of_state, initial_conditions)
     parameters = NohBlackBoxEos.parameters
     geometry = 3
